@@ -237,7 +237,7 @@ def run(ctx):
             exercise(ctx, im, text, None, 30, "size-shapes", nontrivial=True)
             ctx.seen("size_shapes", name)
     # random programs
-    n = ctx.n(600, 60000)
+    n = ctx.n(1200, 100000)
     profiles = [
         Profile(),
         Profile(max_depth=4, max_arms=4, pred_depth=4, hard_literals=0.6, p_tuple_ident=0.3, p_nested_tuple=0.2),
